@@ -93,8 +93,14 @@ def gen_cmd(rng):
         return {'cmd': u'outn %d %d' % (n, s)}
     if r < 0.55:
         return {'cmd': u'nop'}
-    if r < 0.6:
+    if r < 0.58:
         return {'cmd': u'same %d' % rng.randrange(1000)}
+    if r < 0.6:
+        # one line of input that contains a character str.splitlines() also treats as a line boundary (LINE SEPARATOR,
+        # PARAGRAPH SEPARATOR, NEL; FF / VT when the terminal does not echo): a quoted string, a message to print.
+        # For the REPL -- and for the terminal -- it is ONE line.
+        return {'cmd': u'same %d%s%d' % (rng.randrange(100), rng.choice([u'\u2028', u'\u2029', u'\x85', u'\x0c', u'\x0b']),
+                                         rng.randrange(100)), 'odd_sep': True}
     if r < 0.7:
         return {'cmd': u'slow %d %d' % (min(n, 3000), s)}
     if r < 0.85:
@@ -153,6 +159,12 @@ def generate(rng):
             c['sep'] = rng.choice([u'\r\n', u'\r', u'\r'])
     scn['step_cap'] = 1500000
     scn['extra_init'] = rng.random() < 0.2
+    if scn['echo']:
+        # (a terminal that echoes shows control characters as ^L etc.: keep those to the non-echoing sessions)
+        for c in scn['cmds']:
+            if c.get('odd_sep'):
+                for ch_ in (u'\x0c', u'\x0b'):
+                    c['cmd'] = c['cmd'].replace(ch_, u'\u2028')
     return scn
 
 
